@@ -584,7 +584,7 @@ func (g *gspec) build() *built {
 				"put", obj("parameters", arr(obj("name", "h", "in", "header", "type", "string"), bodyParam(from)), "responses", obj("204", plain)),
 				"post", obj("responses", obj("201", plain, "400", resp(from))),
 				"delete", obj("responses", obj("default", resp(from))),
-				"options", obj("parameters", arr(bodyParam(from)), "responses", obj("200", plain)),
+				"options", obj("parameters", arr(bodyParam(from))), // an operation without responses (decodable, if not valid)
 				"head", obj("responses", obj("200", plain, "default", resp(from))),
 				"patch", obj("parameters", arr(bodyParam(from)), "responses", obj("200", resp(from))),
 			)
